@@ -757,6 +757,12 @@ class BinaryOp(Expr):
             r = abs(a) % abs(b)
             return -r if a < 0 else r
 
+        if self.op == Operator.EXP and isinstance(left, int) and \
+           isinstance(right, int) and abs(left) > 1 and right > 64:
+            # certainly outside the range of any integral type; do
+            # not compute the (astronomically large) exact power
+            raise OverflowError
+
         result = {
             Operator.CMP_EQ: lambda a, b: qbool(a == b),
             Operator.CMP_NE: lambda a, b: qbool(a != b),
